@@ -85,26 +85,31 @@ Proof. exact local_run. Qed.
 (* THE composition theorem, on amplitude functions: circuits of gates / measurements / resets, any lanes, any order.
    sq2 C: C is a product of powers of sqrt2; it is chosen before the bits b.  cspec composes the documented operators:
    gapp_doc (Stim's matrix), spec_meas_m (projector, or projector-and-reprepare, onto outcome rec xor inv),
-   spec_reset_m (|init><eig_s| with the silent bit s; on a never-used lane the basis change to the +1 eigenstate). *)
+   spec_reset_m (|init><eig_s| with the silent bit s; on a never-used lane the basis change to the +1 eigenstate), and for a
+   record-controlled Pauli (CF) the Pauli if the referenced record bit is 1, nothing otherwise.
+   kinv sk: every recorded measurement lane exists (true of the initial state and preserved by every primitive);
+   ccircuit_ok: a feedback instruction refers to a record bit that exists at that point. *)
 Theorem C01_circuit :
   forall (R : Type) (rO rI : R) (radd rmul rsub : R -> R -> R) (ropp : R -> R),
   ring_theory rO rI radd rmul rsub ropp eq ->
   forall E : Qc -> R, (forall a b, E (a + b)%Qc = rmul (E a) (E b)) -> E 0%Qc = rI -> E 1%Qc = ropp rI ->
   forall half : R, radd half half = rI -> forall ta tb tc : Qc,
   forall (c : list cinstr) (ops : list (op nat)), ccircuit_ops c = Some ops -> forall sk : kst R,
+  kinv R sk -> ccircuit_ok R rO rI radd rmul ropp E half ta tb tc sk c = true ->
   exists C, sq2 R rO rI radd rmul ropp E half ta tb tc C /\
     forall b t, skel_eq R t sk -> exists e : Qc,
       kfinal R rmul (krun R rO rI radd rmul ropp E half ta tb tc b ops t)
       = Amp.scale R rmul (rmul (E e) C) (cspec R rO rI radd rmul ropp E half ta tb tc b sk c (kfinal R rmul t)).
 Proof. exact circuit_kraus. Qed.
 
-(* ... and about the executable dense model on n lanes, started in |0...0> *)
+(* ... and about the executable dense model on n lanes, started in |0...0> (kinv holds of the initial state) *)
 Theorem C01_circuit_dense :
   forall (R : Type) (rO rI : R) (radd rmul rsub : R -> R -> R) (ropp : R -> R),
   ring_theory rO rI radd rmul rsub ropp eq ->
   forall E : Qc -> R, (forall a b, E (a + b)%Qc = rmul (E a) (E b)) -> E 0%Qc = rI -> E 1%Qc = ropp rI ->
   forall half : R, radd half half = rI -> forall ta tb tc : Qc,
   forall (n : nat) (c : list cinstr) (ops : list (op nat)), ccircuit_ops c = Some ops -> forallb (cinstr_lanes_ok n) c = true ->
+  ccircuit_ok R rO rI radd rmul ropp E half ta tb tc (kinit R rO rI n) c = true ->
   exists C, sq2 R rO rI radd rmul ropp E half ta tb tc C /\ forall b, exists e : Qc,
     st_of R rO rI radd rmul ropp E half ta tb tc n (final_vec (run n b ops (init_state n)))
     = Amp.scale R rmul (rmul (E e) C)
@@ -113,7 +118,13 @@ Proof. exact circuit_kraus_dense. Qed.
 
 (* non-vacuity: a circuit with gates on non-adjacent lanes, an inverted measure-reset, a reset of a used lane, a reset of a
    never-used lane and a Y-basis measurement is in the domain of the theorems *)
+Definition C01_example_circuit : list cinstr :=
+  [CG (GA1 "H" 0); CG (GA2 "CX" 0 3); CG (GA1 "S_DAG" 3); CM "mr" true 3; CF "CY rec q" 0 1; CR "rx" 0; CR "ry" 2; CG (GA2 "ISWAP" 2 1);
+   CM "my" false 0; CF "XCZ q rec" 1 3; CF "CZ q rec" 0 0; CM "mx" false 2]%string.
 Example C01_circuit_inhabited :
-  let c := [CG (GA1 "H" 0); CG (GA2 "CX" 0 3); CG (GA1 "S_DAG" 3); CM "mr" true 3; CR "rx" 0; CR "ry" 2; CG (GA2 "ISWAP" 2 1); CM "my" false 0; CM "mx" false 2]%string in
-  (exists ops, ccircuit_ops c = Some ops /\ (20 < List.length ops)%nat) /\ forallb (cinstr_lanes_ok 4) c = true.
+  (exists ops, ccircuit_ops C01_example_circuit = Some ops /\ (20 < List.length ops)%nat) /\ forallb (cinstr_lanes_ok 4) C01_example_circuit = true.
 Proof. vm_compute. split; [eexists; split; [reflexivity | repeat constructor] | reflexivity]. Qed.
+Example C01_circuit_inhabited_ok :
+  forall (R : Type) (rO rI : R) (radd rmul : R -> R -> R) (ropp : R -> R) (E : Qc -> R) (half : R) (ta tb tc : Qc),
+  ccircuit_ok R rO rI radd rmul ropp E half ta tb tc (kinit R rO rI 4) C01_example_circuit = true.
+Proof. intros. lazy. reflexivity. Qed.
